@@ -169,14 +169,28 @@ func runWorker(self, id, tier string, shard, n int, journal bool) workerResult {
 	var last int64 = time.Now().UnixNano()
 	stop := make(chan struct{})
 	go func() { // hang watchdog: the heartbeat goroutine dies only with the process
+		// A worker hangs when it makes no progress although it runs: it has
+		// burnt 100 s of CPU time since its last progress (a spinning loop), or
+		// 15 min of wall time have passed (a blocked one). Wall time alone is not
+		// a sign on a machine where the workers are starved of CPU.
 		t := time.NewTicker(5 * time.Second)
 		defer t.Stop()
+		cpuAtProgress, seenProgress := cpuSeconds(cmd.Process.Pid), atomic.LoadInt64(&last)
 		for {
 			select {
 			case <-stop:
 				return
 			case <-t.C:
-				if time.Since(time.Unix(0, atomic.LoadInt64(&last))) > 120*time.Second {
+				lp := atomic.LoadInt64(&last)
+				if lp != seenProgress {
+					seenProgress, cpuAtProgress = lp, cpuSeconds(cmd.Process.Pid)
+					continue
+				}
+				idle := time.Since(time.Unix(0, lp))
+				if idle < 120*time.Second {
+					continue
+				}
+				if cpu := cpuSeconds(cmd.Process.Pid); (cpu >= 0 && cpu-cpuAtProgress >= 100) || (cpu < 0 && idle > 5*time.Minute) || idle > 15*time.Minute {
 					res.hung = true
 					_ = cmd.Process.Kill()
 					return
@@ -223,6 +237,30 @@ func runWorker(self, id, tier string, shard, n int, journal bool) workerResult {
 		res.stderr += errb.String()
 	}
 	return res
+}
+
+// cpuSeconds returns the CPU time (user + system, all threads) the process has
+// used so far, from /proc/<pid>/stat; -1 when it cannot be read.
+func cpuSeconds(pid int) float64 {
+	b, err := os.ReadFile(fmt.Sprintf("/proc/%d/stat", pid))
+	if err != nil {
+		return -1
+	}
+	// the command name (field 2) is in parentheses and may hold blanks
+	i := bytes.LastIndexByte(b, ')')
+	if i < 0 {
+		return -1
+	}
+	f := strings.Fields(string(b[i+1:]))
+	if len(f) < 13 {
+		return -1
+	}
+	ut, err1 := strconv.ParseFloat(f[11], 64) // utime: field 14 of the line
+	st, err2 := strconv.ParseFloat(f[12], 64) // stime: field 15
+	if err1 != nil || err2 != nil {
+		return -1
+	}
+	return (ut + st) / 100 // USER_HZ is 100 on Linux
 }
 
 type limitWriter struct {
@@ -276,6 +314,19 @@ func ParentMain(id, tier string) int {
 			}
 			if results[i].crashed && os.Getenv("VERIF_NOJOURNAL") == "" {
 				j := runWorker(self, id, tier, i, n, true)
+				if results[i].hung && !j.crashed && j.rep != nil {
+					// The enumeration is deterministic: a loop that does not end would
+					// not end in the second run either. The shard completed now, so the
+					// first run was stalled from outside (the machine, not the code):
+					// its report is the second run's, and the restart is put on record.
+					j.rep.Notes = append(j.rep.Notes, fmt.Sprintf("shard %d made no progress for 120 s and was restarted; the second run completed", i))
+					if j.rep.Counters == nil {
+						j.rep.Counters = map[string]int64{}
+					}
+					j.rep.Counters["workers_restarted_after_a_stall"]++
+					results[i] = j
+					return
+				}
 				results[i].lastCase = j.lastCase
 				if !j.crashed { // did not reproduce: still a fault, but say so
 					results[i].lastCase = "(not reproduced in journal mode) " + j.lastCase
